@@ -7,15 +7,15 @@ import (
 	"verif/harness/hx"
 )
 
-func sUse(v string, form int) *Stmt    { return &Stmt{Kind: "s", V: v, Form: form, Tag: "s"} }
-func aUse(v string, form int) *Stmt    { return &Stmt{Kind: "a", V: v, W: "i_", Form: form, Tag: "a"} }
-func lUse(v string, form int) *Stmt    { return &Stmt{Kind: "l", V: v, W: "L_", Form: form} }
+func sUse(v string, form int) *Stmt     { return &Stmt{Kind: "s", V: v, Form: form, Tag: "s"} }
+func aUse(v string, form int) *Stmt     { return &Stmt{Kind: "a", V: v, W: "i_", Form: form, Tag: "a"} }
+func lUse(v string, form int) *Stmt     { return &Stmt{Kind: "l", V: v, W: "L_", Form: form} }
 func call(f string, args ...ArgX) *Stmt { return &Stmt{Kind: "c", F: f, Args: args} }
-func av(v string) ArgX                 { return ArgX{Kind: "v", V: v} }
-func ak() ArgX                         { return ArgX{Kind: "k"} }
-func ax(v string, form int) ArgX       { return ArgX{Kind: "x", V: v, Form: form} }
-func ai(v string) ArgX                 { return ArgX{Kind: "i", V: v} }
-func ac(s *Stmt) ArgX                  { return ArgX{Kind: "c", Call: s} }
+func av(v string) ArgX                  { return ArgX{Kind: "v", V: v} }
+func ak() ArgX                          { return ArgX{Kind: "k"} }
+func ax(v string, form int) ArgX        { return ArgX{Kind: "x", V: v, Form: form} }
+func ai(v string) ArgX                  { return ArgX{Kind: "i", V: v} }
+func ac(s *Stmt) ArgX                   { return ArgX{Kind: "c", Call: s} }
 func fn(name string, params []string, body ...*Stmt) Item {
 	return Item{Kind: "func", Name: name, Params: params, Body: body}
 }
@@ -116,6 +116,104 @@ func systematic() []*Prog {
 		add("self-recursion-swap-conflict", fn("f", B, call("f", av("b"), av("a")), aUse("a", form), sUse("b", form)), begin(call("f", av("x"), av("y"))))
 		add("mutual-recursion", fn("f", A, call("g", av("a"))), fn("g", A, call("f", av("a")), aUse("a", form)), begin(call("f", av("x"))))
 		add("mutual-recursion", fn("f", A, call("g", av("a"))), fn("g", A, call("f", av("a"))), begin(call("f", av("x")), aUse("x", form)))
+	}
+	// recursion that hands a parameter on in a DIFFERENT position: parameter src is passed where
+	// parameter dst is expected and that is src's only typing evidence (dst is used directly, src is
+	// not); every arity 2..4, every ordered pair of positions, array/scalar/length use of dst, self
+	// recursion and mutual recursion through 1 or 2 other functions, callers that omit src, pass a
+	// fresh global, pass a constant, or pass a variable of the conflicting type
+	for np := 2; np <= 4; np++ {
+		names := []string{"p0", "p1", "p2", "p3"}[:np]
+		for src := 0; src < np; src++ {
+			for dst := 0; dst < np; dst++ {
+				if src == dst {
+					continue
+				}
+				for ut := 0; ut < 3; ut++ {
+					for hops := 0; hops < 3; hops++ {
+						for caller := 0; caller < 4; caller++ {
+							if (np+src+dst+ut+hops+caller)%2 == 1 && np > 2 {
+								continue // half of the larger arities: keeps the quick tier fast
+							}
+							var use *Stmt
+							switch ut {
+							case 0:
+								use = aUse(names[dst], (src+dst)%3)
+							case 1:
+								use = sUse(names[dst], 0)
+							default:
+								use = lUse(names[dst], 1)
+							}
+							// arguments of the recursive call: constants up to dst, src at dst
+							rargs := func() []ArgX {
+								var as []ArgX
+								for i := 0; i < dst; i++ {
+									as = append(as, ak())
+								}
+								return append(as, av(names[src]))
+							}
+							var items []Item
+							if hops == 0 {
+								items = append(items, fn("f", names, call("f", rargs()...), use))
+							} else {
+								// f -> g (-> h) -> f, each forwarding its own parameter q at position dst
+								mid := []string{"g", "h"}[:hops]
+								fwd := func(to, v string) *Stmt {
+									var as []ArgX
+									for i := 0; i < dst; i++ {
+										as = append(as, ak())
+									}
+									return call(to, append(as, av(v))...)
+								}
+								items = append(items, fn("f", names, fwd(mid[0], names[src]), use))
+								for i, m := range mid {
+									to := "f"
+									if i+1 < len(mid) {
+										to = mid[i+1]
+									}
+									items = append(items, fn(m, names, fwd(to, names[dst])))
+								}
+							}
+							var margs []ArgX
+							for i := 0; i < np; i++ {
+								switch {
+								case i == dst:
+									margs = append(margs, av("t"))
+								case i == src && caller == 1:
+									margs = append(margs, av("u"))
+								case i == src && caller == 2:
+									margs = append(margs, ak())
+								default:
+									margs = append(margs, ak())
+								}
+							}
+							var mb []*Stmt
+							if caller == 0 {
+								// src omitted when it is trailing; otherwise a constant is passed
+								if src > dst {
+									margs = margs[:src]
+								}
+							}
+							if caller == 3 {
+								margs[src] = av("u")
+								if ut == 0 {
+									mb = append(mb, sUse("u", 0))
+								} else {
+									mb = append(mb, aUse("u", 0))
+								}
+							}
+							mb = append(mb, call("f", margs...))
+							if (src+dst+hops)%2 == 0 {
+								items = append(items, begin(mb...))
+							} else {
+								items = append([]Item{begin(mb...)}, items...)
+							}
+							add(fmt.Sprintf("recursion-shift-%dhop", hops), items...)
+						}
+					}
+				}
+			}
+		}
 	}
 	// the example of resolve.go's comment (5 mutually recursive functions)
 	add("mutual-recursion-5",
